@@ -1,4 +1,4 @@
-// unit bits: src/bits.rs — bit, set_bit, not, leading_ones against the binary expansion of the value, for all widths  (C06)
+// unit bits: src/bits.rs — bit, set_bit, not, leading_ones, &= |= ^= against the binary expansion of the value, for all widths  (C06)
 #![allow(non_snake_case)]
 use vstd::prelude::*;
 use vstd::arithmetic::power::*;
@@ -234,6 +234,146 @@ impl<const BITS: usize, const LIMBS: usize> Uint<BITS, LIMBS> {
     {
         /*+*/proof { self.lemma_wf_lt(); }/*-*/
         Self::not(*self).leading_zeros()
+    }
+//@ end
+//@ extract expanded fn bitand_assign ctx=">BitAndAssign<&Uint<BITS,LIMBS>>forUint<BITS,LIMBS>" vis=none as=BitAndAssign_ref__bitand_assign rewrite="u64 :: bitand_assign ( & mut self . limbs [ i ] , rhs . limbs [ i ] ) ;" => "self.limbs[i] &= rhs.limbs[i];" #1
+    fn BitAndAssign_ref__bitand_assign(&mut self, rhs: &Uint<BITS, LIMBS>)
+        /*+*/requires old(self).wf(), rhs.wf()
+        ensures final(self).wf(),
+            forall|j: nat| vbit(final(self).val(), j) == (vbit(old(self).val(), j) && vbit(rhs.val(), j)),/*-*/
+    {
+        /*+*/let ghost s0 = *self;/*-*/
+        for i in /*+*/iter:/*-*/ 0..LIMBS
+            /*+*/invariant
+                iter.seq().len() == LIMBS, s0.wf(), rhs.wf(),
+                forall|k: int| 0 <= k < i ==> self.limbs[k] == (s0.limbs[k] & rhs.limbs[k]),
+                forall|k: int| i <= k < LIMBS ==> self.limbs[k] == s0.limbs[k],/*-*/
+        {
+            self.limbs[i] &= rhs.limbs[i];
+        }
+        /*+*/proof {
+            let n = LIMBS as int;
+            s0.lemma_val_lvr(); self.lemma_val_lvr(); rhs.lemma_val_lvr();
+            if BITS > 0 {
+                // the top limb stays below the mask (the mask is 2^k - 1 or all ones)
+                let x0 = s0.limbs[n - 1]; let y = rhs.limbs[n - 1]; let m = spec_mask(BITS);
+                if BITS % 64 != 0 {
+                    let k = (BITS % 64) as u64;
+                    lemma_u64_pow2_no_overflow(k as nat); lemma_u64_shl_is_mul(1, k); lemma_pow2_pos(k as nat);
+                    assert(low_bits_mask(k as nat) == pow2(k as nat) - 1);
+                    assert(m == ((1u64 << k) - 1) as u64);
+                    assert((x0 & y) <= m) by(bit_vector) requires x0 <= m, y <= m, m == ((1u64 << k) - 1) as u64, k < 64;
+                }
+            }
+            assert(self.wf());
+            assert forall|j: nat| vbit(self.val(), j) == (vbit(s0.val(), j) && vbit(rhs.val(), j)) by {
+                if j >= 64 * n {
+                    lemma_lv_bound(self.limbs@, LIMBS as nat); lemma_lv_bound(s0.limbs@, LIMBS as nat); lemma_lv_bound(rhs.limbs@, LIMBS as nat);
+                    if j > 64 * n { lemma_pow2_strictly_increases((64 * n) as nat, j); }
+                    lemma_high_bit_zero(self.val(), j); lemma_high_bit_zero(s0.val(), j); lemma_high_bit_zero(rhs.val(), j);
+                } else {
+                    let lj = (j / 64) as int; let bj = (j % 64) as nat;
+                    lemma_limb_bit(self.limbs@, n, lj, bj); lemma_limb_bit(s0.limbs@, n, lj, bj); lemma_limb_bit(rhs.limbs@, n, lj, bj);
+                    let x0 = s0.limbs[lj]; let y = rhs.limbs[lj]; let c = bj as usize;
+                    lemma_word_bit(x0, c); lemma_word_bit(y, c); lemma_word_bit(self.limbs[lj], c);
+                    assert(((x0 & y) & (1u64 << c) != 0) == ((x0 & (1u64 << c) != 0) && (y & (1u64 << c) != 0))) by(bit_vector) requires c < 64;
+                }
+            }
+        }/*-*/
+    }
+//@ end
+
+//@ extract expanded fn bitor_assign ctx=">BitOrAssign<&Uint<BITS,LIMBS>>forUint<BITS,LIMBS>" vis=none as=BitOrAssign_ref__bitor_assign rewrite="u64 :: bitor_assign ( & mut self . limbs [ i ] , rhs . limbs [ i ] ) ;" => "self.limbs[i] |= rhs.limbs[i];" #1
+    fn BitOrAssign_ref__bitor_assign(&mut self, rhs: &Uint<BITS, LIMBS>)
+        /*+*/requires old(self).wf(), rhs.wf()
+        ensures final(self).wf(),
+            forall|j: nat| vbit(final(self).val(), j) == (vbit(old(self).val(), j) || vbit(rhs.val(), j)),/*-*/
+    {
+        /*+*/let ghost s0 = *self;/*-*/
+        for i in /*+*/iter:/*-*/ 0..LIMBS
+            /*+*/invariant
+                iter.seq().len() == LIMBS, s0.wf(), rhs.wf(),
+                forall|k: int| 0 <= k < i ==> self.limbs[k] == (s0.limbs[k] | rhs.limbs[k]),
+                forall|k: int| i <= k < LIMBS ==> self.limbs[k] == s0.limbs[k],/*-*/
+        {
+            self.limbs[i] |= rhs.limbs[i];
+        }
+        /*+*/proof {
+            let n = LIMBS as int;
+            s0.lemma_val_lvr(); self.lemma_val_lvr(); rhs.lemma_val_lvr();
+            if BITS > 0 {
+                // the top limb stays below the mask (the mask is 2^k - 1 or all ones)
+                let x0 = s0.limbs[n - 1]; let y = rhs.limbs[n - 1]; let m = spec_mask(BITS);
+                if BITS % 64 != 0 {
+                    let k = (BITS % 64) as u64;
+                    lemma_u64_pow2_no_overflow(k as nat); lemma_u64_shl_is_mul(1, k); lemma_pow2_pos(k as nat);
+                    assert(low_bits_mask(k as nat) == pow2(k as nat) - 1);
+                    assert(m == ((1u64 << k) - 1) as u64);
+                    assert((x0 | y) <= m) by(bit_vector) requires x0 <= m, y <= m, m == ((1u64 << k) - 1) as u64, k < 64;
+                }
+            }
+            assert(self.wf());
+            assert forall|j: nat| vbit(self.val(), j) == (vbit(s0.val(), j) || vbit(rhs.val(), j)) by {
+                if j >= 64 * n {
+                    lemma_lv_bound(self.limbs@, LIMBS as nat); lemma_lv_bound(s0.limbs@, LIMBS as nat); lemma_lv_bound(rhs.limbs@, LIMBS as nat);
+                    if j > 64 * n { lemma_pow2_strictly_increases((64 * n) as nat, j); }
+                    lemma_high_bit_zero(self.val(), j); lemma_high_bit_zero(s0.val(), j); lemma_high_bit_zero(rhs.val(), j);
+                } else {
+                    let lj = (j / 64) as int; let bj = (j % 64) as nat;
+                    lemma_limb_bit(self.limbs@, n, lj, bj); lemma_limb_bit(s0.limbs@, n, lj, bj); lemma_limb_bit(rhs.limbs@, n, lj, bj);
+                    let x0 = s0.limbs[lj]; let y = rhs.limbs[lj]; let c = bj as usize;
+                    lemma_word_bit(x0, c); lemma_word_bit(y, c); lemma_word_bit(self.limbs[lj], c);
+                    assert(((x0 | y) & (1u64 << c) != 0) == ((x0 & (1u64 << c) != 0) || (y & (1u64 << c) != 0))) by(bit_vector) requires c < 64;
+                }
+            }
+        }/*-*/
+    }
+//@ end
+
+//@ extract expanded fn bitxor_assign ctx=">BitXorAssign<&Uint<BITS,LIMBS>>forUint<BITS,LIMBS>" vis=none as=BitXorAssign_ref__bitxor_assign rewrite="u64 :: bitxor_assign ( & mut self . limbs [ i ] , rhs . limbs [ i ] ) ;" => "self.limbs[i] ^= rhs.limbs[i];" #1
+    fn BitXorAssign_ref__bitxor_assign(&mut self, rhs: &Uint<BITS, LIMBS>)
+        /*+*/requires old(self).wf(), rhs.wf()
+        ensures final(self).wf(),
+            forall|j: nat| vbit(final(self).val(), j) == (vbit(old(self).val(), j) != vbit(rhs.val(), j)),/*-*/
+    {
+        /*+*/let ghost s0 = *self;/*-*/
+        for i in /*+*/iter:/*-*/ 0..LIMBS
+            /*+*/invariant
+                iter.seq().len() == LIMBS, s0.wf(), rhs.wf(),
+                forall|k: int| 0 <= k < i ==> self.limbs[k] == (s0.limbs[k] ^ rhs.limbs[k]),
+                forall|k: int| i <= k < LIMBS ==> self.limbs[k] == s0.limbs[k],/*-*/
+        {
+            self.limbs[i] ^= rhs.limbs[i];
+        }
+        /*+*/proof {
+            let n = LIMBS as int;
+            s0.lemma_val_lvr(); self.lemma_val_lvr(); rhs.lemma_val_lvr();
+            if BITS > 0 {
+                // the top limb stays below the mask (the mask is 2^k - 1 or all ones)
+                let x0 = s0.limbs[n - 1]; let y = rhs.limbs[n - 1]; let m = spec_mask(BITS);
+                if BITS % 64 != 0 {
+                    let k = (BITS % 64) as u64;
+                    lemma_u64_pow2_no_overflow(k as nat); lemma_u64_shl_is_mul(1, k); lemma_pow2_pos(k as nat);
+                    assert(low_bits_mask(k as nat) == pow2(k as nat) - 1);
+                    assert(m == ((1u64 << k) - 1) as u64);
+                    assert((x0 ^ y) <= m) by(bit_vector) requires x0 <= m, y <= m, m == ((1u64 << k) - 1) as u64, k < 64;
+                }
+            }
+            assert(self.wf());
+            assert forall|j: nat| vbit(self.val(), j) == (vbit(s0.val(), j) != vbit(rhs.val(), j)) by {
+                if j >= 64 * n {
+                    lemma_lv_bound(self.limbs@, LIMBS as nat); lemma_lv_bound(s0.limbs@, LIMBS as nat); lemma_lv_bound(rhs.limbs@, LIMBS as nat);
+                    if j > 64 * n { lemma_pow2_strictly_increases((64 * n) as nat, j); }
+                    lemma_high_bit_zero(self.val(), j); lemma_high_bit_zero(s0.val(), j); lemma_high_bit_zero(rhs.val(), j);
+                } else {
+                    let lj = (j / 64) as int; let bj = (j % 64) as nat;
+                    lemma_limb_bit(self.limbs@, n, lj, bj); lemma_limb_bit(s0.limbs@, n, lj, bj); lemma_limb_bit(rhs.limbs@, n, lj, bj);
+                    let x0 = s0.limbs[lj]; let y = rhs.limbs[lj]; let c = bj as usize;
+                    lemma_word_bit(x0, c); lemma_word_bit(y, c); lemma_word_bit(self.limbs[lj], c);
+                    assert(((x0 ^ y) & (1u64 << c) != 0) == ((x0 & (1u64 << c) != 0) != (y & (1u64 << c) != 0))) by(bit_vector) requires c < 64;
+                }
+            }
+        }/*-*/
     }
 //@ end
 }
